@@ -21,3 +21,10 @@ Definition k_expr (e : expr) (stims : list (list Z)) : list Z :=
         eval_tb en e;
         denote en e ]) stims
   else [0].
+
+(* Python builtins as read by the model: slice(start, stop, step).indices(len) and list(range(a, b, s)) *)
+Definition k_key_indices (len : Z) (k : pykey) : list Z :=
+  match py_key_indices len k with
+  | None => [0]
+  | Some (a, b, s) => [1; a; b; s] ++ py_range a b s
+  end.
